@@ -161,18 +161,27 @@ def check_packet(ctx, d, suite, pkt, case, created=None, nontrivial=True, kid=Tr
     ctx.case(suite, (toks,), nontrivial=nontrivial, sample={'tokens': toks[:200], 'impl_fp': impl})
     ctx.expect_eq(suite, 'fingerprint differs from the model of PubKeyV4.fingerprint', case, impl, m['fp'])
     if int(pkt.pkalg) in (0, 21) and hasattr(pkt.keymaterial, 's2k'):
-        # PRIVATE key of an algorithm PGPy has no class for: outside the property (theorem C18_fp_opaque_private_characterised:
-        # the whole stored material is hashed, pubkey() refuses); only the correspondence with the model of the code is checked
-        # (the re-emitted packet keeps the parsed header length although an S2K usage octet is appended: take the body by position)
-        full, hdr = bytes(pkt.__bytearray__()), bytes(pkt.header.__bytearray__())
+        # PRIVATE key of an algorithm PGPy has no class for: the whole stored material is hashed and pubkey() refuses (theorem
+        # C18_fp_opaque_private_characterised) - no public body to hold the fingerprint against; the correspondence with the model of
+        # the code is checked, and (repair c516614, theorem C18_opaque_private_reemit) the packet is written back as received:
+        # version, time, algorithm, the opaque octets, under a header that counts them
+        sp = outcome(lambda: split_packets(bytes(pkt.__bytearray__())))
         mt, mb = cached(d, 'body ' + toks).split(' ')
-        ctx.expect_eq(suite, 'emitted opaque private key packet differs from model', case, full[len(hdr) - 1:].hex(), mb)
+        ctx.expect_eq(suite, 'emitted opaque private key packet (tag, body) differs from model', case,
+                      (sp[0], [(t, b.hex()) for t, b in sp[1]] if sp[0] == 'ok' else sp[1]), ('ok', [(unhn(mt), mb)]))
+        want = (b'\x04' + wallclock(pkt.created).to_bytes(4, 'big') + bytes([int(pkt.pkalg)]) + bytes(pkt.keymaterial.data)).hex()
+        if mb != want:
+            ctx.fail(suite, 'model: body of an opaque private key is not version, time, algorithm, opaque octets', dict(case, model=mb, want=want))
         return m
     if m['fp'] != m['rfc'] or m['body'] != m['rfcbody']:
         ctx.fail(suite, 'model: code fingerprint/body differs from the RFC transcription on a well-formed key (theorem premises violated?)', case)
     ctx.expect_eq(suite, 'publen() differs from model', case, pkt.keymaterial.publen(), m['publen'])
-    # emitted octets of this very packet
-    (tag, body), = split_packets(bytes(pkt.__bytearray__()))
+    # emitted octets of this very packet: ONE packet whose header counts the octets written
+    sp = outcome(lambda: split_packets(bytes(pkt.__bytearray__())))
+    if sp[0] != 'ok' or len(sp[1]) != 1:
+        ctx.fail(suite, 'emitted key packet is not one well-formed packet (header length does not count the octets written?)', dict(case, impl=repr(sp)[:300]))
+        return m
+    (tag, body), = sp[1]
     mt, mb = cached(d, 'body ' + toks).split(' ')
     ctx.expect_eq(suite, 'emitted key packet (tag, body) differs from model', case, (tag, body.hex()), (unhn(mt), mb))
     if body[:6 + m['publen']].hex() != m['body']:
@@ -942,6 +951,19 @@ def suite_opaque(ctx, d, pgpy):
                                   (outcome(lambda: str(p.fingerprint).lower()), outcome(lambda: bytes(p.__bytearray__()).hex())), (fp0, out0))
                     ctx.expect_eq('opaque', 'model: history copy, pubkey of an opaque private key is not refused', dict(case, step='model-history'),
                                   model_ops(d, ['C', 'K'], toks), ('REFUSED',))
+                    # copy, export + import, copy: written back as received (repair c516614), same fingerprint; model: C18_opaque_private_steps
+                    wantp = model_ops(d, ['C', 'R', 'C'], toks)
+                    ctx.expect_eq('opaque', 'model: history of an opaque private key moves its body / fingerprint', dict(case, step='model-history'),
+                                  wantp, (tag, body.hex(), m['fp']))
+                    def walkp():
+                        q = copy.copy(p)
+                        q = Packet(bytearray(bytes(q.__bytearray__()) + b'\xde\xad'))
+                        q = copy.copy(q)
+                        (t, b), = split_packets(bytes(q.__bytearray__()))
+                        return (t, b.hex(), str(q.fingerprint).lower(), bytes(q.__bytearray__()).hex())
+                    ctx.case('opaque', (alg, tag, data.hex(), 'history'))
+                    ctx.expect_eq('opaque', 'opaque private key after copy / export + import / copy is not the packet as received', dict(case, step='history'),
+                                  outcome(walkp), ('ok', wantp + (raw.hex(),)))
                     if tag == 5:
                         def keylevel():
                             k = pgpy.PGPKey.from_blob(raw)[0]
@@ -949,15 +971,15 @@ def suite_opaque(ctx, d, pgpy):
                         ctx.case('opaque', (alg, tag, data.hex(), 'pgpkey'))
                         ctx.expect_eq('opaque', 'PGPKey.pubkey of an opaque private key is not refused with NotImplementedError', dict(case, step='pgpkey'),
                                       outcome(keylevel), ('ok', (False, m['fp'], ('raise', 'NotImplementedError'), ('raise', 'NotImplementedError'), m['fp'])))
-    ctx.notes.append('outside the property (theorems C18_fp_opaque_private_characterised / C18_opaque_private_reemit_refuted): a PRIVATE key with algorithm id 0 / 21 hashes its '
-                     'whole stored material and re-emission appends an S2K usage octet under a stale header length; its pubkey() refuses (NotImplementedError, repair 3c1c8c6: '
-                     'no twin with another fingerprint any more, C18_fp_twin_preserved has no exception)')
+    ctx.notes.append('outside the property (theorem C18_fp_opaque_private_characterised): a PRIVATE key with algorithm id 0 / 21 hashes its whole stored material (no public '
+                     'body can be told apart); its pubkey() refuses (NotImplementedError, repair 3c1c8c6: no twin with another fingerprint, C18_fp_twin_preserved has no exception); '
+                     'it is written back as received (repair c516614, C18_opaque_private_reemit; the composition with an extra usage octet is C18_opaque_private_reemit_old_refuted)')
 
 
 def suite_secret_layout(ctx, d, pgpy, names):
     """secret key packets whose secret part the MODEL encoder writes (Model/KeyPackets.v sec_tail) in the layouts touched by repairs
-    7c47922 / 05bf06b: S2K usage 255 (the two checksum octets are the end of the ciphertext) for DSA, ElGamal and RSA, usage 254, and GNU
-    stubs (no secret / smartcard with an EMPTY and a non-empty serial).  PGPy must read the fields the model encoded, re-emit the same
+    7c47922 / 05bf06b / 8563c06: S2K usage 255 (the two checksum octets are the end of the ciphertext) for DSA, ElGamal and RSA, usage 254,
+    the legacy form (usage octet = cipher id, String2Key writes the IV only; model s2k_on = usage != 0), and GNU stubs (no secret / smartcard with an EMPTY and a non-empty serial).  PGPy must read the fields the model encoded, re-emit the same
     octets, and report the fingerprint of the public packet (the secret part never reaches the hash)."""
     from .keys import get
     from pgpy.packet import Packet
@@ -977,6 +999,10 @@ def suite_secret_layout(ctx, d, pgpy, names):
         ('usage255-aes128', 'ff', bytes([7, 3, 8]) + salt + bytes([96]) + bytes(range(16)), 40),
         ('usage255-cast5', 'ff', bytes([3, 3, 2]) + salt + bytes([238]) + bytes(range(8)), 23),
         ('usage254-aes256', 'fe', bytes([9, 3, 8]) + salt + bytes([96]) + bytes(range(16)), 60),
+        # legacy form (repair 8563c06): the usage octet is a cipher id (7 = AES128, 3 = CAST5, 9 = AES256), the IV follows at once, then the ciphertext
+        ('legacy-aes128', '7', bytes(range(0x50, 0x60)), 37),
+        ('legacy-cast5', '3', bytes(range(0x60, 0x68)), 24),
+        ('legacy-aes256', '9', bytes(range(0x70, 0x80)), 52),
         ('gnu-nosecret-255', 'ff', bytes([0, 101]) + b'\x00GNU' + bytes([1]), 0),
         ('gnu-card-empty-serial-255', 'ff', bytes([0, 101]) + b'\x00GNU' + bytes([2, 0]), 0),
         ('gnu-card-empty-serial-254', 'fe', bytes([0, 101]) + b'\x00GNU' + bytes([2, 0]), 0),
@@ -1003,6 +1029,98 @@ def suite_secret_layout(ctx, d, pgpy, names):
             tw = outcome(lambda: (lambda q: (str(q.fingerprint).lower(), split_packets(bytes(q.__bytearray__()))[0][1].hex()))(p.pubkey()))
             ctx.expect_eq('secret-layout', 'pubkey() of a model-encoded secret packet: fingerprint / body differ from the model twin', case, tw,
                           ('ok', tuple(cached(d, 'twin ' + toks).split(' ')[:0:-1])))
+
+
+def loose_mpi(v, style):
+    """an MPI as another producer may write it: the declared bit count covers leading zero bits ('bits': rounded up to a whole octet,
+    same octets) or leading zero octets ('octets1' / 'octets3': that many zero octets in front, counted); 'exact': the shortest form"""
+    n = max((v.bit_length() + 7) // 8, 0)
+    raw = v.to_bytes(n, 'big')
+    if style == 'exact':
+        return v.bit_length().to_bytes(2, 'big') + raw
+    if style == 'bits':
+        return (8 * n).to_bytes(2, 'big') + raw
+    z = {'octets1': 1, 'octets3': 3}[style]
+    return (8 * (n + z)).to_bytes(2, 'big') + bytes(z) + raw
+
+
+def suite_loose_mpi(ctx, d, pgpy, names):
+    """key packets from ANOTHER PRODUCER whose public integers are not in shortest form (RSA, DSA, ElGamal; public and secret packets, every
+    style on every integer / on one integer only).  PGPy reads the integers and writes shortest forms (repair 298df7b: under a header that
+    counts what is written): the fingerprint is SHA-1(0x99 || len || public body AS EXPORTED) for the packet, its copy, its pubkey() twin,
+    after export + import and at PGPKey level; the model parser reads the loose body to the same fields, the model encoder writes the
+    same exported packet."""
+    from .keys import get
+    from pgpy.packet import Packet
+    rng = ctx.rng
+    subjects = []      # (label, alg, [public integers], secret tail or None, created)
+    for n in names:
+        pkt = get(n)._key
+        km = pkt.keymaterial
+        (tag, body), = split_packets(bytes(pkt.__bytearray__()))
+        tail = body[6 + km.publen():]
+        ints = [int(getattr(km, f)) for f in km.__pubfields__]
+        subjects.append((n, int(pkt.pkalg), ints, tail, wallclock(pkt.created)))
+    # ElGamal: numbers of our own; secret part = usage 0, x, two-octet sum of the octets of x's MPI
+    p_ = (1 << 767) | rng.getrandbits(767) | 1
+    x_ = rng.getrandbits(250) + 2
+    xm = loose_mpi(x_, 'exact')
+    subjects.append(('elgamal-768', 16, [p_, 5, rng.getrandbits(760) + 2], b'\x00' + xm + (sum(xm) % 65536).to_bytes(2, 'big'), 1136073600))
+    # small integers with many leading zero bits
+    subjects.append(('rsa-tiny', 1, [0x1f3, 3], None, 1000))
+    subjects.append(('dsa-tiny', 17, [0x0101, 0x11, 2, 1], None, 2 ** 32 - 1))
+    styles = ['bits', 'octets1', 'octets3']
+    for label, alg, ints, tail, created in subjects:
+        plans = [[st] * len(ints) for st in styles] + [['exact'] * i + [rng.choice(styles)] + ['exact'] * (len(ints) - i - 1) for i in range(len(ints))]
+        if not ctx.quick:
+            plans += [[rng.choice(styles + ['exact']) for _ in ints] for _ in range(4)]
+        for plan in plans:
+            for secret in ((False, True) if tail is not None else (False,)):
+                pub = b''.join(loose_mpi(v, st) for v, st in zip(ints, plan))
+                lbody = b'\x04' + created.to_bytes(4, 'big') + bytes([alg]) + pub + (tail if secret else b'')
+                xbody = b'\x04' + created.to_bytes(4, 'big') + bytes([alg]) + b''.join(loose_mpi(v, 'exact') for v in ints)     # public body, shortest forms
+                tag = 5 if secret else 6
+                raw = bytes([0xc0 | tag]) + b'\xff' + len(lbody).to_bytes(4, 'big') + lbody
+                case = {'op': 'loose-mpi', 'key': label, 'plan': plan, 'secret': secret, 'pkt': raw.hex()}
+                ctx.case('loose-mpi', (label, tuple(plan), secret), sample={'key': label, 'plan': plan, 'secret': secret, 'declared_bits': [int.from_bytes(loose_mpi(v, st)[:2], 'big') for v, st in zip(ints, plan)], 'real_bits': [v.bit_length() for v in ints]})
+                if any(st != 'exact' and loose_mpi(v, st) == loose_mpi(v, 'exact') for v, st in zip(ints, plan)) and all(loose_mpi(v, st) == loose_mpi(v, 'exact') for v, st in zip(ints, plan)):
+                    if not secret:
+                        ctx.notes.append('loose-mpi: plan %s on %s is the shortest form already' % (plan, label))
+                o = outcome(lambda: Packet(bytearray(raw)))
+                if o[0] != 'ok':
+                    ctx.fail('loose-mpi', 'key packet of another producer (integers with declared leading zero bits) is not read', dict(case, impl=repr(o))); continue
+                p = o[1]
+                want_fp = rfc_fp(xbody)
+                m = check_packet(ctx, d, 'loose-mpi', p, case, kid=len(raw) < 400)
+                # the model parser reads the loose body to the fields PGPy read
+                fields = outcome(lambda: '%s %s %s | %s' % (hn(wallclock(p.created)), hn(int(p.pkalg)), mat_tokens(p.pkalg, p.keymaterial), hx(tail if secret else b'')))
+                ctx.expect_eq('loose-mpi', 'PGPy parse of a loose-MPI key body differs from model parse', case, fields, ('ok', d.call('parse', hx(lbody))))
+                def views():
+                    c = copy.copy(p)
+                    q = Packet(bytearray(bytes(p.__bytearray__()) + b'\xde\xad'))
+                    k = pgpy.PGPKey.from_blob(raw)[0]
+                    k2 = pgpy.PGPKey.from_blob(bytes(k))[0]
+                    out = {}
+                    for nm, obj, octets in (('packet', p, bytes(p.__bytearray__())), ('copy', c, bytes(c.__bytearray__())), ('export+import', q, bytes(q.__bytearray__())),
+                                            ('PGPKey', k, bytes(k)), ('PGPKey export+import', k2, bytes(k2)), ('PGPKey copy', copy.copy(k), bytes(copy.copy(k)))):
+                        (t, b), = split_packets(octets)
+                        out[nm] = (str(obj.fingerprint).lower(), t, b[:len(xbody)].hex(), b[len(xbody):].hex())
+                    if secret:
+                        for nm, tw in (('pubkey()', p.pubkey()), ('pubkey() of copy', copy.copy(p).pubkey())):
+                            (t, b), = split_packets(bytes(tw.__bytearray__()))
+                            out[nm] = (str(tw.fingerprint).lower(), t - 1, b.hex(), tail.hex())
+                        (t, b), = split_packets(bytes(k.pubkey))
+                        out['PGPKey.pubkey'] = (str(k.pubkey.fingerprint).lower(), t - 1, b.hex(), tail.hex())
+                    return out
+                v = outcome(views)
+                if v[0] != 'ok':
+                    ctx.fail('loose-mpi', 'loose-MPI key packet cannot be copied / exported / re-imported / loaded as a key', dict(case, impl=repr(v))); continue
+                for nm, got in v[1].items():
+                    # fingerprint = SHA-1(0x99 || len || public body AS EXPORTED) = the shortest-form body of the integers that were read
+                    ctx.expect_eq('loose-mpi', 'fingerprint / exported body of a loose-MPI key (%s): not SHA-1(0x99 || len || public body as exported) over the shortest forms' % nm,
+                                  dict(case, view=nm), got, (want_fp, tag, xbody.hex(), (tail if secret else b'').hex()))
+                if m['fp'] != want_fp:
+                    ctx.fail('loose-mpi', 'model fingerprint of the fields read from a loose-MPI packet is not the RFC hash of the shortest-form body', dict(case, model=m['fp'], want=want_fp))
 
 
 def suite_gpg(ctx, d, pgpy, names):
@@ -1073,6 +1191,7 @@ def run(ctx):
         suite_kdf(ctx, d, pgpy, [n for n in names if n in ('ed25519', 'ed25519b', 'p256', 'p384', 'p521', 'secp256k1')])
         suite_fresh(ctx, d, pgpy, fresh)
         suite_opaque(ctx, d, pgpy)
+        suite_loose_mpi(ctx, d, pgpy, [n for n in names if n in (('rsa1024', 'dsa1024') if q else ('rsa1024', 'rsa2048', 'dsa1024', 'dsa2048'))])
         suite_secret_layout(ctx, d, pgpy, [n for n in names if n in (('dsa1024', 'rsa1024', 'ed25519') if q else ('dsa1024', 'dsa2048', 'rsa1024', 'rsa2048', 'ed25519', 'p256', 'p384'))])
         suite_short_coordinates(ctx, d, pgpy)
         suite_rsa_ids(ctx, d, pgpy, [n for n in names if n in (('rsa1024',) if q else ('rsa1024', 'rsa2048', 'rsa3072'))])
